@@ -230,3 +230,48 @@ def build_struct_message(ctx, descs, queues, free, nsub=1, compressed=False, var
                         compressed=compressed)
     b, info = message.build(spec, buf)
     return b, spec, subs, notes
+
+
+def distinct_raw(info, s, w):
+    """a field value that differs from its neighbours and between subsets (so that picking the wrong node shows)"""
+    j = info['index']
+    if info['kind'] == 'str':
+        nb = w // 8
+        return bytes([65 + (3 * j + 7 * s) % 26, 97 + (j + s) % 26] * nb)[:nb]
+    mx = (1 << w) - 2 if w > 1 else 1
+    return (1 + 5 * j + 11 * s) % (mx + 1)
+
+
+class DistinctMixin(object):
+    """structure data (factors, bitmap bits, 203 values) as in the base chooser; ordinary field values are not choice
+    points but deterministic values that differ from item to item and from subset to subset"""
+
+    def __call__(self, info):
+        role = info.get('role')
+        if role in ('bit', 'factor') or info['kind'] == 'refdef':
+            return super(DistinctMixin, self).__call__(info)
+        w = info['width']
+        if self.comp:
+            return [distinct_raw(info, s, w) for s in range(self.nsub)]
+        return distinct_raw(info, info['subset'], w)
+
+
+class DistinctChooser(DistinctMixin, Chooser):
+    pass
+
+
+class DistinctStructChooser(DistinctMixin, StructChooser):
+    pass
+
+
+def build_distinct_message(ctx, descs, nsub=1, compressed=False, queues=None, free=(), variant_of_subset=None,
+                           share_structure=False, version=33, edition=4, thorough=False):
+    B, D = tables_for(version)
+    if queues is None:
+        ch = DistinctChooser(ctx, nsub, compressed, thorough, share_structure=share_structure)
+    else:
+        ch = DistinctStructChooser(ctx, nsub, compressed, queues, free, variant_of_subset)
+    buf, subs, notes, nbincs = codec.encode(B, D, descs, nsub, compressed, ch)
+    spec = message.Spec(edition=edition, meta={'master_table_version': version}, descs=descs, nsub=nsub, compressed=compressed)
+    b, info = message.build(spec, buf)
+    return b, spec, subs, notes
